@@ -95,9 +95,7 @@ Proof.
         -- remember (o :: out) as O eqn:EO.
            set (c2 := {| c_src := s'; c_state := CData; c_remaining := c_remaining c1 - lenN O |}).
            assert (Hd2 : st_dec c2 (acc ++ O) = D).
-           { rewrite <- Hd1. apply data_step; try reflexivity; try assumption.
-             - exact B1.
-             - lia. }
+           { rewrite <- Hd1. apply data_step; [exact Hdata|reflexivity|exact B1|lia|reflexivity]. }
            assert (Hb2 : CB c2).
            { unfold CB, c2. cbn [c_src]. apply (Bound_split (c_src c1) s' O); assumption. }
            assert (HO : O <> []) by (subst O; discriminate).
